@@ -1,6 +1,8 @@
 //! Jrsonnet specific additional binding helpers
 
-#[cfg(feature = "interop-wasm")]
+// Static callbacks are imported from the wasm host, on other targets those symbols are left
+// undefined, and shared library is failing to load.
+#[cfg(all(feature = "interop-wasm", target_arch = "wasm32"))]
 pub mod wasm {
 	use std::ffi::{c_char, c_int, c_void};
 
